@@ -13,12 +13,12 @@
 
     The reader model is tied to the C code by the differential run of
     bin/check C01 (engine fmt). *)
-From Coq Require Import NArith List Bool Lia.
+From Coq Require Import NArith ZArith List Bool Lia.
 From KdV Require Import Fmt.Codec Fmt.CodecProofs Fmt.Rle Fmt.RleProofs
      Fmt.PfnModel Fmt.BitmapSpec Fmt.ImageSpec Fmt.DiskdumpModel Fmt.DiskdumpSpec Fmt.DiskdumpProofs
      Fmt.S390Model Fmt.S390Spec Fmt.S390Proofs Fmt.LkcdModel Fmt.LkcdSpec Fmt.LkcdProofs Fmt.PfnBridge Fmt.LkcdIndexModel Fmt.LkcdIndexProofs Fmt.ElfGeomModel Fmt.ElfGeomSpec Fmt.ElfGeomProofs Fmt.ElfGeomRoundtrip Fmt.ReadProofs
      Fmt.ElfModel Fmt.ElfSpec Fmt.ElfProofs Fmt.ElfRoundtrip Fmt.ElfOpenProofs
-     Fmt.SadumpModel Fmt.SadumpSpec Fmt.SadumpProofs Fmt.SadumpOpenProofs.
+     Fmt.SadumpModel Fmt.SadumpSpec Fmt.SadumpProofs Fmt.SadumpOpenProofs Fmt.SadumpBridge.
 Import ListNotations.
 Local Open Scope N_scope.
 
@@ -352,6 +352,19 @@ Theorem C01_sadump_set_roundtrip_partial : forall l img,
       spec_read_page img SADUMP_PAGE_SIZE (sl_max_mapnr l) z pfn.
 Proof. exact sadump_set_roundtrip. Qed.
 Print Assumptions C01_sadump_set_roundtrip_partial.
+
+(** the extent walk of the C01 reader model is the walk of C11's disk-set
+    model (Flat/DiskSetModel.v; [off_t] in Z with overflow outcomes) wherever
+    offsets stay below 2^62 *)
+Theorem C01_sadump_extent_walk_is_c11 : forall exts pos,
+  exts <> [] -> Forall (fun e => small (ex_pos e) /\ small (ex_len e)) exts -> small pos ->
+  DiskSetModel.walk (map to_flat exts) (Z.of_N pos) =
+  match ext_loop exts pos with
+  | Some (f, o) => DiskSetModel.WAt f (Z.of_N o)
+  | None => DiskSetModel.WNoData
+  end.
+Proof. exact ext_loop_is_walk. Qed.
+Print Assumptions C01_sadump_extent_walk_is_c11.
 
 Theorem C01_sadump_disk_set_extents : forall rd (chunks : list (extent * bytes)) pos,
   Forall (fun ec => ex_len (fst ec) = len (snd ec) /\ (len (snd ec)) mod 4096 = 0 /\
